@@ -27,8 +27,8 @@ type token struct {
 	kind tokKind
 	text string
 	// for #-literals
-	lit Expr
-	pos int
+	lit  Expr
+	pos  int
 	line int
 }
 
@@ -388,8 +388,9 @@ type File struct {
 // parser
 
 type parser struct {
-	toks []token
-	i    int
+	toks  []token
+	i     int
+	inDef bool
 }
 
 func (p *parser) peek() token { return p.toks[p.i] }
@@ -409,6 +410,11 @@ func (p *parser) isI(s string) bool {
 	return t.kind == tIdent && t.text == s
 }
 func (p *parser) fail(msg string) {
+	// goose's printer never emits braces inside a definition (only the Context line of the
+	// header has them): a brace where a term is expected is a lexical error of the output
+	if t := p.peek(); p.inDef && (t.text == "{" || t.text == "}") {
+		panic(&LexError{"brace inside a definition: " + msg, t.line})
+	}
 	panic(&ParseError{Msg: msg + " (at " + strconv.Quote(p.peek().text) + ")", Line: p.peek().line})
 }
 func (p *parser) expectP(s string) {
@@ -514,7 +520,7 @@ func (p *parser) sentence(src string) *Decl {
 	t := p.peek()
 	start := t.pos
 	line := t.line
-	raw := func() string { return src[start:p.toks[p.i-1].pos+1] }
+	raw := func() string { return src[start : p.toks[p.i-1].pos+1] }
 	if t.kind != tIdent {
 		p.skipSentence()
 		return &Decl{Kind: "other", Line: line, Raw: raw()}
@@ -527,6 +533,8 @@ func (p *parser) sentence(src string) *Decl {
 			p.fail("definition name")
 		}
 		d := &Decl{Kind: "def", Name: name.text, Line: line}
+		p.inDef = true
+		defer func() { p.inDef = false }()
 		// type parameters "(T:ty)"
 		for p.isP("(") {
 			p.advance()
@@ -545,7 +553,7 @@ func (p *parser) sentence(src string) *Decl {
 			p.advance()
 			d.Kind = "structdecl"
 			d.Body = p.fieldList()
-		} else if p.isI("rec") || (p.peek().kind == tIdent && p.peek().text == "rec" ) {
+		} else if p.isI("rec") || (p.peek().kind == tIdent && p.peek().text == "rec") {
 			d.Body = p.expr()
 		} else {
 			d.Body = p.expr()
